@@ -3605,8 +3605,9 @@ _dispatch_lane_drain(dispatch_lane_t dq, dispatch_invoke_context_t dic,
 			break;
 		}
 		if (likely(flags & DISPATCH_INVOKE_WORKLOOP_DRAIN)) {
-			dispatch_workloop_t dwl = (dispatch_workloop_t)_dispatch_get_wlh();
-			if (unlikely(_dispatch_queue_max_qos(dwl) > dwl->dwl_drained_qos)) {
+			dispatch_workloop_t dwl = _dispatch_wlh_to_workloop(_dispatch_get_wlh());
+			if (unlikely(dwl &&
+					_dispatch_queue_max_qos(dwl) > dwl->dwl_drained_qos)) {
 				break;
 			}
 		}
